@@ -1,4 +1,5 @@
-from orchestrate.common import run_check
+from orchestrate.common import run_check, REPO, ROOT
+import os
 
 def _extra(lines, verdicts):
     pol = {"inherit": 0, "any": 0, "dc": 0, "dc+rack": 0}
@@ -16,7 +17,9 @@ def _extra(lines, verdicts):
         down += ("e" in f[4]) or ("d" in f[4])
     dd = [_down_dc(ln) for ln in lines]
     nl, dup = _two_reads(lines)
-    return {"two_read_cases": nl, "two_read_plans_naming_a_node_twice": dup,
+    ch, hd = _two_reads_changed(lines)
+    return {"two_read_cases": nl, "two_read_cases_with_a_changed_flag": ch, "two_read_cases_whose_picked_node_changed_state": hd,
+            "two_read_plans_naming_a_node_twice": dup, "plan_cases_with_a_nonzero_shard": _shards(lines),
             "latency_awareness_census": _census() or "off: builder default None, DefaultPolicy::default None, runner never sets it",
             "preferred_dc_all_down_with_failover": dd.count(True), "preferred_dc_all_down_without_failover": dd.count(False),
             "policy_preference_kinds": pol, "token_aware_policies": ta, "failover_permitted": fo,
@@ -29,6 +32,31 @@ def _norm(ln):
     if f and f[0] == "L":
         f = f[:5] + f[6:]
     return f
+
+def _shards(lines):
+    """P lines in which a plan target carries a non-zero shard"""
+    c = 0
+    for ln in lines:
+        if ln.startswith("P ") and "|" in ln:
+            c += any(t.split(":")[1] not in ("0", "_") for fld in ln.split("|")[1].split()[2:] if fld != "-" for t in fld.split(","))
+    return c
+
+def _two_reads_changed(lines):
+    """L lines whose second liveness differs from the first / differs for the picked node"""
+    ch = hd = 0
+    for ln in lines:
+        if not ln.startswith("L ") or "|" not in ln:
+            continue
+        f = ln.split("|")[0].split()
+        ch += f[4] != f[5]
+        out = ln.split("|")[1].split()
+        if out and out[0] not in ("-", "nopick", "panic"):
+            head = out[0].split(",")[0].split(":")[0]
+            ids = [n.split(".")[0] for n in f[1].split(",")]
+            if head in ids:
+                i = ids.index(head)
+                hd += f[4][i] != f[5][i]
+    return ch, hd
 
 def _two_reads(lines):
     n = dup = changed_head = 0
@@ -45,14 +73,14 @@ def _census():
     import re
     bad = []
     try:
-        src = open("/repo/scylla/src/policies/load_balancing/default.rs").read()
+        src = open(os.path.join(REPO, "scylla/src/policies/load_balancing/default.rs")).read()
         m = re.search(r"impl DefaultPolicyBuilder \{.*?pub fn new\(\) -> Self \{(.*?)\n    \}", src, re.S)
         if not m or not re.search(r"latency_awareness:\s*None", m.group(1)):
             bad.append("DefaultPolicyBuilder::new() no longer sets latency_awareness: None")
         d = re.search(r"impl Default for DefaultPolicy \{.*?fn default\(\) -> Self \{(.*?)\n    \}", src, re.S)
         if not d or not re.search(r"latency_awareness:\s*None", d.group(1)):
             bad.append("DefaultPolicy::default() no longer sets latency_awareness: None")
-        for fn in ("/verif/harness/src/bin/c05.rs", "/verif/harness/src/ring_util.rs"):
+        for fn in (os.path.join(ROOT, "harness/src/bin/c05.rs"), os.path.join(ROOT, "harness/src/ring_util.rs")):
             if re.search(r"latency_awareness|LatencyAwareness", open(fn).read()):
                 bad.append(f"{fn} mentions latency awareness")
     except OSError as e:
@@ -90,6 +118,14 @@ def _post(lines, verdicts):
             out.append(("diff", lines[0], f"diff generator floor: two-read (L) cases={nl} < {len(lines) // 20}"))
         if dup < 5:
             out.append(("diff", lines[0], f"diff generator floor: two-read plans naming a node twice={dup} < 5"))
+        ch, hd = _two_reads_changed(lines)
+        if ch < len(lines) // 40:
+            out.append(("diff", lines[0], f"diff generator floor: two-read cases with a changed flag={ch} < {len(lines) // 40}"))
+        if hd < len(lines) // 1000:
+            out.append(("diff", lines[0], f"diff generator floor: two-read cases whose picked node changed state={hd} < {len(lines) // 1000}"))
+        sh = _shards(lines)
+        if sh < len(lines) // 10:
+            out.append(("diff", lines[0], f"diff generator floor: P cases with a non-zero shard={sh} < {len(lines) // 10}"))
         fo = sum(1 for ln in lines if _down_dc(ln) is True)
         nofo = sum(1 for ln in lines if _down_dc(ln) is False)
         inh = sum(1 for ln in lines if _norm(ln)[5].startswith("i/"))
@@ -123,7 +159,7 @@ SPEC = {
     ],
     "assumptions": [
         "latency awareness is not modelled and never enabled",
-        "liveness is a snapshot: no node changes state between pick() and fallback()",
+        "liveness is a snapshot for kind P and for all theorems except C05_two_reads_*; kind L changes the liveness of some nodes once, between the first and the second next() of one Plan",
         "model theorems assume a sorted ring (TokenRing::new) and one entry per datacenter in every NTS map; tokens may repeat",
         "shuffles, rotation indices and the choose index are oracles; shuffling on/off only selects the seed",
     ],
